@@ -30,17 +30,18 @@ Fold(steps, i, acc) ==
         c == IF s.a = "restore" THEN [a |-> "restore", k |-> s.k] ELSE [a |-> s.a]
     IN IF s.a \notin {"op", "undo", "redo", "restore", "revert"} THEN [acc EXCEPT !.v = "harness:unknown-command"]
        ELSE IF s.a = "restore" /\ ~(s.k \in 1..Len(acc.views)) THEN [acc EXCEPT !.v = "harness:restore-target"]
-       ELSE IF s.nops # (IF s.ok THEN 1 ELSE 0) THEN [acc EXCEPT !.v = "harness:opcount"]
+       ELSE IF s.nops \notin {0, 1} \/ (~s.ok /\ s.nops # 0) THEN [acc EXCEPT !.v = "harness:opcount"]
        ELSE IF ~StepOK(acc.st, c, s.ok, s.view, acc.views) THEN [acc EXCEPT !.v = ContractOf(c)]
        ELSE
          LET log2 == ImplStep(acc.log, c, "none")
-             same == IF ImplOk(acc.log, c, "none")
-                     THEN s.ok /\ log2[Len(log2)].kind = s.kind /\ log2[Len(log2)].tgt = s.tgt
-                     ELSE ~s.ok
+             same == IF Len(log2) > Len(acc.log)
+                     THEN s.ok /\ s.nops = 1 /\ log2[Len(log2)].kind = s.kind /\ log2[Len(log2)].tgt = s.tgt
+                     ELSE s.nops = 0 /\ s.ok = ImplOk(acc.log, c, "none")
+             views2 == IF s.nops = 1 THEN Append(acc.views, s.view) ELSE acc.views
          IN Fold(steps, i + 1,
-                 [st |-> AbsStep(acc.st, c, acc.views),
-                  log |-> log2,
-                  views |-> IF s.ok THEN Append(acc.views, s.view) ELSE acc.views,
+                 [st |-> [AbsStep(acc.st, c, acc.views) EXCEPT !.n = Len(views2)],
+                  log |-> IF Len(log2) = Len(views2) THEN log2 ELSE ImplInit(Len(views2)),
+                  views |-> views2,
                   v |-> "ok",
                   div |-> acc.div \/ ~same])
 
